@@ -32,3 +32,8 @@ CH.extend(CONTRACTS, CH.readers() + CH.plumbing(('ll',)) + CH.tables(pack=True, 
 from . import c08 as _C08H   # noqa: E402
 from .chain import clone as _clone   # noqa: E402
 CONTRACTS += [_clone(_c, home="c08") for _c in _C08H.make_helper]
+
+
+def EXTRA():
+    from . import chain as _CHX
+    return _CHX.frame_effects(PROPERTY)
